@@ -80,7 +80,8 @@ def insert_zero(ast, rng):
         # only harmless when no domain-level structure uses such a strand; the generator was asked for none
         if not doms:
             return None
-        t = next(s for s in targets if s["name"] == rng.choice(doms))
+        pick = rng.choice(doms)
+        t = next(s for s in targets if s["k"] == "seq" and s["name"] == pick)
     else:
         t = rng.choice(targets)
     item = {"t": "ref", "name": z, "star": place == "starred" or rng.random() < 0.2}
